@@ -196,6 +196,14 @@ EXTRA = [
     "from nada_dsl import *\nk = Integer(1)\ndef h(x: Integer) -> Integer:\n    y = k + x\n    for k in range(2):\n        z = k\n    return y\n"
     "def nada_main():\n    w = h(Integer(1))\n    return []\n",
     "from nada_dsl import *\nk = 1\ndef nada_main():\n    k = 2\n    y = k\n    z = [y]\n    return []\n",
+    # a local variable named like a built-in function / a library constructor, assigned after the call of that name
+    "from nada_dsl import *\ndef nada_main():\n    p = Party(name='P')\n    a = SecretInteger(Input(name='a', party=p))\n    n = str(1)\n    str = 'abc'\n    return [Output(a, 'o', p)]\n",
+    "from nada_dsl import *\ndef nada_main():\n    p = Party(name='P')\n    a = SecretInteger(Input(name='a', party=p))\n    k = Integer(1)\n    for Integer in range(2):\n        z = Integer\n    return [Output(a, 'o', p)]\n",
+    "from nada_dsl import *\ndef nada_main():\n    p = Party(name='P')\n    a = SecretInteger(Input(name='a', party=p))\n    t = sum([a, a])\n    sum = 1\n    r = range(2)\n    return [Output(t, 'o', p)]\n",
+    "from nada_dsl import *\ndef nada_main():\n    p = Party(name='P')\n    a = SecretInteger(Input(name='a', party=p))\n    str = 'abc'\n    n = str\n    z = [n]\n    return [Output(a, 'o', p)]\n",
+    # the library imported again after a helper took a constructor's name: helpers defined in between call the library's
+    "from nada_dsl import *\ndef Integer(x: int) -> int:\n    return x\ndef g(x: int) -> int:\n    return Integer(x)\nfrom nada_dsl import *\n"
+    "def nada_main():\n    p = Party(name='P')\n    y = g(1)\n    z = [y]\n    return []\n",
     # the target of an inner loop is a variable that the enclosing loop's body reads
     "from nada_dsl import *\ndef nada_main():\n    p = Party(name='P')\n    j = Integer(1)\n    for i in range(2):\n        y = j\n        for j in range(1):\n            z = j\n    return []\n",
     "from nada_dsl import *\ndef nada_main():\n    p = Party(name='P')\n    a = SecretInteger(Input(name='a', party=p))\n    t = a\n    for i in range(2):\n        for k2 in range(2):\n"
